@@ -27,6 +27,7 @@ class Step:
     node: ast.AST
     pol: bool | None = None
     extra: str | None = None
+    tokens: frozenset | None = None
 
     def describe(self) -> str:
         if self.kind == "cond":
@@ -217,6 +218,10 @@ class PathEnum:
             return [Path([], "break", s)]
         if isinstance(s, ast.Match):
             raise AnalysisError(f"unmodelled construct match at line {s.lineno}")
+        if isinstance(s, ast.Expr) and isinstance(s.value, ast.Constant):
+            return [Path([], "fall")]  # docstrings and bare constants
+        if isinstance(s, ast.Pass):
+            return [Path([], "fall")]
         return [Path([Step("stmt", s)], "fall")]
 
     def _if(self, s: ast.If) -> list[Path]:
@@ -237,17 +242,33 @@ class PathEnum:
         for q in orelse:
             out.append(Path([exhausted] + q.steps, q.exit, q.exit_node))
         nxt = Step("iter", s, extra="next")
-        for p in self.block(s.body):
+        body_paths = self.block(s.body)
+        back = Step("loopback", s, tokens=self._continuing_tokens(s, body_paths))
+        for p in body_paths:
             if p.exit in ("fall", "continue"):
                 for q in orelse:
                     out.append(
-                        Path([nxt] + p.steps + [Step("loopback", s), exhausted] + q.steps, q.exit, q.exit_node)
+                        Path([nxt] + p.steps + [back, exhausted] + q.steps, q.exit, q.exit_node)
                     )
             elif p.exit == "break":
                 out.append(Path([nxt] + p.steps, "fall"))
             else:
                 out.append(Path([nxt] + p.steps, p.exit, p.exit_node))
         return out
+
+    @staticmethod
+    def _continuing_tokens(loop, body_paths) -> frozenset:
+        """Names (re)bound by iterations that go round again (summary of the unseen iterations)."""
+        toks: set[str] = set()
+        for p in body_paths:
+            if p.exit in ("fall", "continue"):
+                for st in p.steps:
+                    toks |= step_assigned(st)
+        if isinstance(loop, (ast.For, ast.AsyncFor)):
+            for t in ast.walk(loop.target):
+                if isinstance(t, ast.Name):
+                    toks.add(t.id)
+        return frozenset(toks)
 
     def _while(self, s: ast.While) -> list[Path]:
         out = []
@@ -258,15 +279,17 @@ class PathEnum:
             for q in orelse:
                 out.append(Path([false] + q.steps, q.exit, q.exit_node))
         true = Step("cond", s.test, True)
-        for p in self.block(s.body):
+        body_paths = self.block(s.body)
+        back = Step("loopback", s, tokens=self._continuing_tokens(s, body_paths))
+        for p in body_paths:
             if p.exit in ("fall", "continue"):
                 if const_true:
                     # further iterations are not followed; the path is cut at the back edge
-                    out.append(Path([true] + p.steps + [Step("loopback", s)], "fall"))
+                    out.append(Path([true] + p.steps + [back], "fall"))
                     continue
                 for q in orelse:
                     out.append(
-                        Path([true] + p.steps + [Step("loopback", s), false] + q.steps, q.exit, q.exit_node)
+                        Path([true] + p.steps + [back, false] + q.steps, q.exit, q.exit_node)
                     )
             elif p.exit == "break":
                 out.append(Path([true] + p.steps, "fall"))
@@ -411,6 +434,8 @@ def step_assigned(step: Step) -> set[str]:
     if step.kind == "except":
         return {n.name} if n.name else set()
     if step.kind == "loopback":
+        if step.tokens is not None:
+            return set(step.tokens)
         out = set()
         for b in n.body:
             out |= norm.assigned_names(b)
